@@ -11,7 +11,7 @@ from . import _resolver as RS
 ID = 'C08'
 RULE = ('(1) Fragment texts from the C13 token-level generator (atomistic: elements, two-letter elements, charged bracket atoms, '
         'bond orders 1-3, rings, an aromatic ring unit; coarse: named nodes, rings, bond orders) with 0-3 descriptors per atom in '
-        'every order, all four kinds, labels, descriptor orders 0-3, leading descriptors; every text the reader accepts is read, '
+        'every order, explicit hydrogen atoms, all four kinds, labels, descriptor orders 0-3, leading descriptors; every text the reader accepts is read, '
         'written with write_cgsmiles_fragments and read again: same names, graphs isomorphic with element / node name, charge, '
         'aromaticity, bond order and the ordered descriptor list per atom. Sets of two fragments check the separators. '
         '(2) Complete strings with uniquely labelled descriptor pairs (C01 cut / rendering leaves, C06 multi-level strings) are written with '
